@@ -5,7 +5,7 @@ from .. import matrixsem as MS
 from ..algebra import Alg, Uninterpreted, atom, const
 from ..flow import Taint, bindings
 from ..typedispatch import follow
-from ..model import AnalysisError, attr_chain, call_name, stmts_in, walk_no_nested
+from ..model import fresh, AnalysisError, attr_chain, call_name, stmts_in, walk_no_nested
 
 EXPLANATION = (
     "Static rules (no execution). R02.1 field coverage: for every concrete segment class the Point-valued fields "
@@ -290,6 +290,35 @@ def reify_algebra(ctx):
                     ctx.need(s.body and isinstance(s.body[-1], ast.Return), "R02.4", "%s: negated guard does not leave the function" % qual)
                     block = list(s.orelse) + [x for x in fn.body[i_ + 1:]]
         ctx.need(guard is not None, "R02.4", "%s: no-skew guard not found" % qual)
+        # a negative scale on either axis must leave the shape alone: folding it stores negative sizes/radii (scale(-1,-1) has a
+        # positive product).  The early exits before the no-skew block are evaluated for the three sign patterns.
+        names = {}
+        for st in fn.body:
+            if isinstance(st, ast.Assign) and len(st.targets) == 1 and isinstance(st.targets[0], ast.Name) and isinstance(st.value, ast.Call):
+                ch = attr_chain(st.value.func)
+                if ch and ch[-1] in ("value_scale_x", "value_scale_y"):
+                    names[st.targets[0].id] = ch[-1][-1]
+        exits = [st for st in fn.body[:fn.body.index(guard)] if isinstance(st, ast.If) and st.body and isinstance(st.body[-1], ast.Return)]
+        for sx, sy in ((-1.0, 1.0), (1.0, -1.0), (-1.0, -1.0)):
+            refused = False
+            undecided = False
+            for st in exits:
+                env = {n: (sx if ax == "x" else sy) for n, ax in names.items()}
+                free = {x.id for x in ast.walk(st.test) if isinstance(x, ast.Name)} - set(env)
+                if free:
+                    continue
+                # constant folding of a pure arithmetic/comparison expression over the two named scales (nothing of the module runs)
+                if not all(isinstance(x, (ast.Expression, ast.BoolOp, ast.And, ast.Or, ast.Not, ast.UnaryOp, ast.USub, ast.BinOp, ast.Mult, ast.Add, ast.Sub, ast.Compare, ast.Lt, ast.LtE, ast.Gt,
+                                          ast.GtE, ast.Eq, ast.NotEq, ast.Name, ast.Load, ast.Constant)) for x in ast.walk(st.test)):
+                    undecided = True
+                    continue
+                try:
+                    refused = refused or bool(eval(compile(ast.Expression(body=fresh(st.test)), "<guard>", "eval"), {"__builtins__": {"abs": abs, "min": min, "max": max}}, env))
+                except Exception:
+                    undecided = True
+            ctx.need(not undecided, "R02.4", "%s: sign guard not evaluated" % qual)
+            ctx.ob("R02.4", "%s[negative scale (%+d, %+d) is not folded]" % (qual, sx, sy), refused, "early exits: %s" % "; ".join(ast.unparse(st.test)[:50] for st in exits), fn.lineno,
+                   "folding a negative scale into the attributes stores negative width/height/radii: scale(-1,-1) passes a test on the product of the two scales")
         # compute-then-commit: `try: <locals> except ...: return self` before anything of self is written - the exceptional exit
         # leaves the shape as it was, the normal path is the try body followed by the rest
         flat = []
